@@ -1,0 +1,9 @@
+//go:build !verif
+
+package fuse
+
+import (
+	"bazil.org/fuse/fs"
+)
+
+func verifInvalidate(fsys *FileSystem, kind string, node fs.Node, name string, off, size int64) {}
